@@ -1,5 +1,6 @@
 import PybtexModel.Drv.Json
 import PybtexModel.Model.Names
+import PybtexModel.Model.NamesLocal
 import PybtexModel.Model.BibWrite
 import PybtexModel.Spec.Names
 open Lean
@@ -67,6 +68,90 @@ def personParts (j : Json) : Except String Json := do
                            ("first", toksJ f), ("middle", toksJ m), ("prelast", toksJ p), ("last", toksJ l),
                            ("lineage", toksJ g)])])
 
-def handlers : List (String × (Json → Except String Json)) := [("person", person), ("personparts", personParts)]
+/-! ### function-level ops: the local functions of `Person._parse_string`, one by one
+(the harness rebuilds the closures from the code objects of the running `/repo`) -/
+
+def caseName : Spec.TokCase → String
+  | .upper => "upper"
+  | .lower => "lower"
+  | .caseless => "caseless"
+
+def boolRes (key : String) : Except NameErr Bool → Json
+  | .error e => obj [("error", Json.str (errName e))]
+  | .ok b => obj [(key, Json.bool b)]
+
+/-- `is_von_name(tok)` -/
+def isVon (j : Json) : Except String Json := do
+  let t ← getStr j "tok"
+  pure (obj [("out", boolRes "von" (isVonName t)),
+             ("spec", obj [("case", Json.str (caseName (Spec.tokenCase t))),
+                           ("case_bibtex", Json.str (caseName (Spec.tokenCaseBibtex t))),
+                           ("scans", Json.bool (scan t).isSome)])])
+
+/-- `special_char_islower(sc)` -/
+def spIsLower (j : Json) : Except String Json := do
+  let sc ← getStr j "sc"
+  pure (obj [("out", obj [("lower", Json.bool (specialCharIsLower sc))]),
+             ("spec", obj [("case", Json.str (caseName (Spec.specialCase sc))),
+                           ("control_sequence", strToJson ((sc.drop 1).takeWhile isAlphaN)),
+                           ("builtin", optJ (fun c => Json.str (caseName c)) (Spec.builtinCase ((sc.drop 1).takeWhile isAlphaN)))])])
+
+/-- the predicate of the `findpos` op: the item starts with `1` -/
+def flagged (x : Str) : Except NameErr Bool := .ok (x.head? = some '1')
+
+def pairJ : Except NameErr (List Str × List Str) → Json
+  | .error e => obj [("error", Json.str (errName e))]
+  | .ok (a, b) => obj [("left", strs a), ("right", strs b)]
+
+/-- `find_pos(lst, pred)`, `split_at(lst, pred)`, `rsplit_at(lst, pred)` with `pred` = "the item starts with 1" -/
+def findPos (j : Json) : Except String Json := do
+  let l ← getStrList j "items"
+  let pos : Json := match findPosM flagged l with
+    | .error e => obj [("error", Json.str (errName e))]
+    | .ok n => nat n
+  pure (obj [("out", obj [("find_pos", pos), ("split_at", pairJ (splitAtM flagged l)), ("rsplit_at", pairJ (rsplitAtM flagged l))]),
+             ("spec", obj [("first", optJ nat (l.findIdx? fun x => x.head? = some '1')),
+                           ("last", optJ nat (Spec.lastIdx (fun x => x.head? = some '1') l))])])
+
+/-- `process_von_last(parts)` and `process_first_middle(parts)` on a fresh person -/
+def vonLast (j : Json) : Except String Json := do
+  let ts ← getStrList j "toks"
+  let vl : Json := match processVonLast {} ts with
+    | .error e => obj [("error", Json.str (errName e))]
+    | .ok p => obj [("prelast", strs p.prelast), ("last", strs p.last)]
+  let vl2 : Json := match processVonLastL {} ts with
+    | .error e => obj [("error", Json.str (errName e))]
+    | .ok p => obj [("prelast", strs p.prelast), ("last", strs p.last)]
+  let fm := processFirstMiddle {} ts
+  pure (obj [("out", obj [("von_last", vl), ("first_middle", obj [("first", strs fm.first), ("middle", strs fm.middle)])]),
+             ("spec", obj [("von", strs (Spec.vonLast ts).1), ("last", strs (Spec.vonLast ts).2),
+                           ("von_bibtex", strs (Spec.vonLastBy Spec.isLowBibtex ts).1),
+                           ("last_bibtex", strs (Spec.vonLastBy Spec.isLowBibtex ts).2),
+                           ("with_rsplit_at", vl2),
+                           ("low_bibtex", arr (ts.map fun t => Json.bool (Spec.isLowBibtex t)))])])
+
+def modeOutJ : Except NameErr ModeOut → Json
+  | .error e => obj [("error", Json.str (errName e))]
+  | .ok o => obj [("person", optJ personJ o.person), ("raised", optJ strToJson o.raised), ("captured", strs o.captured),
+                  ("stderr", strToJson o.stderr), ("error_code", nat o.errorCode)]
+
+/-- `Person(s)` in capture / strict / non-strict mode -/
+def personMode (j : Json) : Except String Json := do
+  let s ← getStr j "s"
+  let m ← getStr j "mode"
+  let mode ← match String.ofList m with
+    | "capture" => pure ErrMode.capture
+    | "strict" => pure ErrMode.strict
+    | "nonstrict" => pure ErrMode.nonstrict
+    | _ => throw "personmode: unknown mode"
+  pure (obj [("out", modeOutJ (mkPersonMode mode s [] [] [] [] [])),
+             ("spec", obj [("person", specPersonJ s),
+                           ("too_many_commas", Json.bool (if strip s = [] then false else (Spec.split (strip s)).2)),
+                           ("closed", Json.bool (Spec.groupsClosed (strip s))),
+                           ("rule_comma_parts", strs (Spec.nameCommaParts (strip s)))])])
+
+def handlers : List (String × (Json → Except String Json)) :=
+  [("person", person), ("personmode", personMode), ("personparts", personParts), ("isvon", isVon), ("spislower", spIsLower), ("findpos", findPos),
+   ("vonlast", vonLast)]
 
 end Pybtex.Drv.C04
